@@ -92,15 +92,30 @@ let outcome_line f = function
 let args_of (c : case) : int list =
   Stdlib.List.concat_map (fun toks -> match toks with "args" :: l -> ints_of l | _ -> []) (ins c)
 
+(* an earlier query put to the same solver object: IN pre <q> <cert> <labels...> *)
+let pre_of (c : case) : (Solvers.query * bool * int list) option =
+  Stdlib.List.fold_left (fun acc toks -> match toks with
+      | "pre" :: q :: ct :: l -> Some (query_of q, ct = "1", ints_of l)
+      | _ -> acc) None (ins c)
+
 let run_one (c : case) (f : nat Store.fw) sem q cert enc (labels : int list) (script : Cnf.answer list) =
-  let ids = Stdlib.List.map (fun l -> Store.get_argument leqb f (nat_of_int l)) labels in
-  if Stdlib.List.exists (fun o -> o = None) ids then out "panic unknown-argument"
+  let ids_of labels = Stdlib.List.map (fun l -> Store.get_argument leqb f (nat_of_int l)) labels in
+  let ids = ids_of labels in
+  let pre = pre_of c in
+  let pre_ids = match pre with Some (_, _, l) -> ids_of l | None -> [] in
+  if Stdlib.List.exists (fun o -> o = None) (ids @ pre_ids) then out "panic unknown-argument"
   else begin
     let al = Stdlib.List.filter_map (fun x -> x) ids in
     let g = Graph.view_of_fw f in
     let fuel = nat_of_int (2 * Stdlib.List.length script + 12) in
     let oracle = Prog.script_oracle script in
-    let r = Solvers.run_query oracle (nat_of_int !thr) fuel sem q cert enc g al (Prog.init_st Prog.CadicalLike) in
+    let main = Solvers.run_query oracle (nat_of_int !thr) fuel sem q cert enc g al in
+    let prog = match pre with
+      | None -> main
+      | Some (pq, pc, _) ->
+          let pal = Stdlib.List.filter_map (fun x -> x) pre_ids in
+          Prog.bind (Solvers.run_query oracle (nat_of_int !thr) fuel sem pq pc enc g pal) (fun _ -> main) in
+    let r = prog (Prog.init_st Prog.CadicalLike) in
     print_log (Prog.log_of r);
     match r with
     | Prog.Done (o, _) -> out (outcome_line f o)
